@@ -96,7 +96,9 @@ def main():
       # storage-schemas.conf
       secs = []
       for i in range(rnd.randint(1, 6)):
-        sec = {'name': 'sec%d' % i}
+        sec = {'name': rnd.choice(['sec%d' % i, 'sec%d' % i, 'default', 'carbon', 'everything_%d' % i])}
+        if any(x['name'] == sec['name'] for x in secs):
+          sec['name'] = 'sec%d' % i            # (ConfigParser rejects a repeated section header)
         if rnd.random() < 0.85:
           sec['pattern'] = rnd.choice(PATTERNS)
         if rnd.random() < 0.85:
@@ -118,7 +120,9 @@ def main():
       # storage-aggregation.conf
       asecs = []
       for i in range(rnd.randint(0, 5)):
-        sec = {'name': 'agg%d' % i}
+        sec = {'name': rnd.choice(['agg%d' % i, 'default', 'agg%d' % i])}
+        if any(x['name'] == sec['name'] for x in asecs):
+          sec['name'] = 'agg%d' % i
         if rnd.random() < 0.85:
           sec['pattern'] = rnd.choice(PATTERNS)
         if rnd.random() < 0.8:
@@ -180,4 +184,9 @@ def main():
 
 
 if __name__ == '__main__':
-  main()
+  import os as _os
+  sys_path_dir = _os.path.dirname(_os.path.abspath(__file__))
+  import sys as _sys
+  _sys.path.insert(0, sys_path_dir)
+  from _guard import run_guarded
+  run_guarded(main, _os.path.basename(__file__))
